@@ -180,28 +180,39 @@ prop("C25",
      [TRUST_TOOL, "prefix_successor is checked as a verbatim source slice (the file needs the rocksdb FFI feature to compile as a whole); sha256 of the slice is in the evidence"],
      [H("c25_prefix_scan_bound", "h_kernels", loops=6, functions=["prefix_successor (source slice)"], bounds="prefix 1..=3 bytes, key 0..=3 bytes, all byte values")])
 
+
+prop("C13",
+     "SCOPED to the leader's Raft command path: the policy under which a leader serves a read (LeaderState::determine_read_policy, "
+     "the function push_client_cmd routes on) is the server default whenever client override is disabled or the client gave no "
+     "policy, and the client's policy otherwise -- for all 3x2x4 combinations.",
+     ["d-engine-core/src/raft_role/leader_state.rs"],
+     ["non-leader routing (RaftRoleState::push_client_cmd on Follower/Candidate/Learner): its role-level harness does not finish (DESIGN.md 2b) -- the first sentence of the property is NOT decided",
+      "the gRPC fast path (grpc_raft_service.rs / read_actor.rs) and the embedded read handle, which consult the client's policy themselves"],
+     [TRUST_TOOL],
+     [H("c13_leader_read_policy", "h_more", loops=6, timeout=400,
+        functions=["LeaderState::determine_read_policy", "LeaderState::from(&CandidateState)", "FollowerState::new", "RaftNodeConfig::default"],
+        bounds="default policy x allow_client_override x client policy (None / 3 values): all 24 combinations, symbolic",
+        stubs=[LVL, CLOCK_FIXED, RND, FMT])])
+
+prop("C37",
+     "SCOPED to the two conversions around the log's wire format: write_op_to_proto (client operation -> WriteCommand) followed by "
+     "Command::try_from (WriteCommand -> applied Command) preserves key, value, expected value (absent / empty / present) and TTL "
+     "for put, put-with-TTL, delete and CAS with keys/values of 0..=2 symbolic bytes and any TTL >= 1; TTL 0 is checked separately.",
+     ["d-engine-core/src/raft_role/leader_state.rs", "d-engine-core/src/command.rs"],
+     ["the prost varint/bytes codec between the two conversions (client_command_to_entry_payloads / decode_entries): the full round trip does not finish under the cap; prost is trusted library code",
+      "keys/values longer than 2 bytes", "the gRPC-side conversion in d-engine-server/src/proto_convert.rs"],
+     [TRUST_TOOL],
+     [H("c37_convert_insert_delete", "h_more", loops=6, timeout=400, functions=["write_op_to_proto", "Command::try_from(WriteCommand)"],
+        bounds="key, value 0..=2 symbolic bytes; TTL None or any u64 >= 1", stubs=[FMT]),
+      H("c37_convert_cas", "h_more", loops=6, timeout=400, functions=["write_op_to_proto", "Command::try_from(WriteCommand)"],
+        bounds="key, new value, expected: 1 symbolic byte; expected absent / empty / present", stubs=[FMT]),
+      H("c37_convert_ttl_zero", "h_more", loops=6, timeout=400, functions=["write_op_to_proto", "Command::try_from(WriteCommand)"],
+        bounds="put with TTL Some(0), 1-byte key/value", stubs=[FMT])])
+
 prop("WIP", "work in progress batch", [], [], [], [
-    H("c08_leader_ranges_uncapped_or_heartbeat", "h_repl", timeout=900, loops=17),
-    H("c08_leader_ranges_capped_plus_new", "h_repl", timeout=900, loops=17),
-    H("c13_follower_client_cmd", "h_role", timeout=900),
-    H("c13_candidate_client_cmd", "h_role", timeout=900),
-    H("c13_learner_client_cmd", "h_role", timeout=900),
-    H("c01_follower_vote_step", "h_role", timeout=900),
-    H("c27_learner_vote_step", "h_role", timeout=900),
-    H("c03_single_node_predicate", "h_kernels", timeout=300, loops=6),
-    H("c03_single_node_predicate_alone", "h_kernels", timeout=300, loops=6),
-    H("c03_single_node_predicate_one_voter", "h_kernels", timeout=300, loops=6),
-    H("c03_single_node_predicate_one_learner", "h_kernels", timeout=300, loops=6),
-    H("c03_single_node_predicate_two_voters", "h_kernels", timeout=300, loops=6),
-    H("c03_single_node_predicate_voter_and_learner", "h_kernels", timeout=300, loops=6),
-    H("c03_single_node_predicate_four_voters", "h_kernels", timeout=300, loops=6),
-    H("c01_candidate_vote_legality", "h_kernels", timeout=900),
-    H("c07_follower_commit_arithmetic", "h_kernels", timeout=900),
-    H("c07_append_request_legality", "h_kernels", timeout=900),
-    H("c25_prefix_scan_bound", "h_kernels", timeout=900),
-    H("c07_follower_commit_rule", "h_repl", timeout=900),
-    H("c01_election_needs_majority_3voters", "h_election", timeout=900),
-    H("c03_sole_voter_0peers", "h_election", timeout=900),
+    H("c37_convert_insert_delete", "h_more", timeout=400, loops=6),
+    H("c37_convert_cas", "h_more", timeout=400, loops=6),
+    H("c37_convert_ttl_zero", "h_more", timeout=400, loops=6),
 ])
 prop("PROBE", "probes", [], [], [], [
     H("probe_default_cfg", "probe", timeout=600),
